@@ -16,7 +16,8 @@ RULE = ("Cases = (row-length vector from the empty-row-placement templates, elem
         "array, save/load, equals) and the geometry object (starts, ends, size, flat<->(row,col) maps, index_array, "
         "to_dict/from_dict) is compared with the generating rows / the exclusive prefix sum of the lengths.  "
         "Non-trivial = at least two rows with both an empty and a non-empty row, or an expected refusal (buffer size "
-        "mismatch).")
+        "mismatch)."
+        "  Inputs also as F-ordered / transposed / strided matrices, strided 1-D buffers and row lengths given as an ndarray that the caller overwrites afterwards; the geometry maps are queried with generated position vectors (permutations, repeats); an astype result is written to and the source re-read, and vice versa.")
 ASSUMPTIONS = ["dtype is compared only when the result has at least one element",
                "sizes <= ~3k elements; offsets near 2**31 are not explored"]
 
@@ -61,7 +62,7 @@ def readbacks(ra, astype_to):
     out["iter"] = [norm(np.asarray(r)) for r in ra]
     out["tolist"] = ra.tolist()
     out["ravel"] = norm(ra.ravel())
-    out["dtype"] = str(ra.dtype) if ra.size else None
+    out["dtype"] = str(ra.dtype) if len(ra) else None
     t = ra.astype(astype_to)
     out["astype"] = norm(t)
     # a conversion result is an array of its own (numpy's astype contract): writing to it leaves the source alone, and vice versa
@@ -94,9 +95,9 @@ def expected_readbacks(a, astype_to):
     out["iter"] = [norm(r) for r in rows]
     out["tolist"] = [r.tolist() for r in rows]
     out["ravel"] = norm(flat)
-    out["dtype"] = a["dt"] if tot else None
+    out["dtype"] = a["dt"] if len(lens) else None
     out["astype"] = {"k": "ragged", "rows": [r.astype(astype_to).tolist() for r in rows], "lens": lens, "n": len(lens),
-                     "dt": str(np.dtype(astype_to)) if tot else None}
+                     "dt": str(np.dtype(astype_to)) if len(lens) else None}
     out["astype-source-after"] = [r.tolist() for r in rows]
     out["astype-after-source-write"] = out["astype"]
     return out
@@ -150,7 +151,7 @@ def obs_rect(case):
         mat = layout(np.array(case["vals"], dtype=case["dt"]).reshape(case["r"], case["c"]), case.get("layout", "C"))
         ra = RaggedArray.from_numpy_array(mat)
         back = ra.to_numpy_array()
-        return {"rows": ra.tolist(), "lens": [int(x) for x in ra.lengths], "n": len(ra), "dt": str(ra.dtype) if mat.size else None,
+        return {"rows": ra.tolist(), "lens": [int(x) for x in ra.lengths], "n": len(ra), "dt": str(ra.dtype) if len(ra) else None,
                 "back": norm(back) if len(ra) else {"shape0": back.shape[0], "size": back.size}}
     return observe(f)
 
@@ -160,7 +161,7 @@ def body_rect(case, ctx):
     mat = np.array(case["vals"], dtype=case["dt"]).reshape(r, c)
     ctx.label("dt:" + case["dt"], "zero-rows" if r == 0 else "zero-cols" if c == 0 else "rect", "layout:" + case.get("layout", "C"))
     ctx.nt(r >= 2 or r == 0 or c == 0)
-    exp = {"rows": mat.tolist(), "lens": [c] * r, "n": r, "dt": case["dt"] if mat.size else None,
+    exp = {"rows": mat.tolist(), "lens": [c] * r, "n": r, "dt": case["dt"] if r else None,
            "back": norm(mat) if r else {"shape0": 0, "size": 0}}
     got = obs_rect(case)
     if "refused" in got:
@@ -386,7 +387,7 @@ def body_saveload(case, ctx):
     if "refused" in got:
         raise Violation("saveload:unexpected-refusal", got=got)
     g = got["ok"]
-    exp_back = {"k": "ragged", "rows": [r.tolist() for r in rows], "lens": lens, "n": len(lens), "dt": a["dt"] if sum(lens) else None}
+    exp_back = {"k": "ragged", "rows": [r.tolist() for r in rows], "lens": lens, "n": len(lens), "dt": a["dt"] if len(lens) else None}
     d = diff_obs(exp_back, g["back"])
     if d:
         raise Violation("saveload:differs", where=d)
